@@ -101,14 +101,14 @@ var props = []*PropDef{
 	{
 		ID:     "C07",
 		Level:  "other",
-		Funcs:  append([]string{"code39.getChecksum", "code39.prepare", "code39.EncodeWithColor", "code39.Encode"}, base1D...),
+		Funcs:  append([]string{"code39.getChecksum", "code39.prepare", "code39.EncodeWithColor", "code39.Encode", "code93.prepare"}, base1D...),
 		Tables: []string{"code39/tables", "code93/tables"},
 		Harness: []Harness{
 			{Pkg: "code39", File: "c07_code39_test.go", Run: "^TestVerifC07Code39$", Bound: "cross-check of the Code 39 proof on the running code: round trip through onedspec.C39Decode/C39CheckChar/C39FullASCIIDecode in all four option combinations over all 128 ASCII characters"},
 			{Pkg: "code93", File: "c07_code93_test.go", Run: "^TestVerifC07Code93$", Bound: boundedNote + "round trip through onedspec.C93Decode/C93Checks/C93FullASCIIDecode in all four option combinations"},
 		},
-		Assumptions: []string{asmBitlist, asmUTF8, "Code 39: inputs of at most 2 000 000 bytes (BitList capacity bound of the contracts)", "Code 93: prepare/getChecksum/EncodeWithColor are NOT under contract (rune-indexed weights over multi-byte function characters): decode-back rests on the bounded stand-in"},
-		Note:        "Code 39 [P], for every input and all four option combinations: accepted exactly when the drawn text consists of the 43 data characters (full ASCII mode: when the input is ASCII); the drawn text is the input resp. its full-ASCII spelling by the standard's pair table (prepare: recursive offset function); the symbol is * text [check] *, 12 modules per character from the standard's element table with narrow gaps; the check character is the modulo-43 character (getChecksum: recursive sum; the search over the map is proved order independent, the fall-through return unreachable). [T] both character tables and both full-ASCII tables; [P] the image type. Code 93 assembly and check characters: bounded.",
+		Assumptions: []string{asmBitlist, asmUTF8, "Code 39: inputs of at most 2 000 000 bytes (BitList capacity bound of the contracts)", "Code 93: getChecksum/EncodeWithColor are NOT under contract (rune-indexed weights over 2-byte function characters need a concrete UTF-8 model): check characters and assembly rest on the bounded stand-in"},
+		Note:        "Code 39 [P], for every input and all four option combinations: accepted exactly when the drawn text consists of the 43 data characters (full ASCII mode: when the input is ASCII); the drawn text is the input resp. its full-ASCII spelling by the standard's pair table (prepare: recursive offset function); the symbol is * text [check] *, 12 modules per character from the standard's element table with narrow gaps; the check character is the modulo-43 character (getChecksum: recursive sum; the search over the map is proved order independent, the fall-through return unreachable). [T] both character tables and both full-ASCII tables; [P] the image type. Code 93: [P] prepare spells every ASCII text by the standard's table (shift characters as the bytes C3 B1..B4) and refuses exactly non-ASCII text; assembly and check characters: bounded.",
 	},
 	{
 		ID:     "C08",
